@@ -30,7 +30,8 @@ META = {
     "level_note": "Trusted: asyncio, the gateway models in the harness (Tridonic report protocol, hasseb two-byte "
                   "reports, LUBA/SCI confirmations), z3/cvc5, symx (each path re-run concretely).",
     "explanation": "real driver coroutines under a virtual clock with the fault schedule as symbolic choice variables",
-    "bounds": ["<= 2 callers", "<= 2 losses per run", "reconnect limit in {None, 0, 1, 3}, 0..2 failing reconnect "
+    "bounds": ["LUBA gateway refusing every frame (error codes 1, 2, 0x80); 1..3 rounds of cancel-after-write + adapter loss (with/without echo, EOF/OSError)",
+               "<= 2 callers", "<= 2 losses per run", "reconnect limit in {None, 0, 1, 3}, 0..2 failing reconnect "
                "attempts", "one cancellation at a symbolic await point; sequence counter arbitrary in 1..255",
                "serial: a first send cancelled at one of nine moments (before the write, waiting for the "
                "confirmation, waiting for the answer) on a gateway that confirms / answers it or not, followed "
